@@ -276,7 +276,42 @@ func (w *World) gaugesOracle(prop string, converse bool) []Violation {
 	return out
 }
 
-func (w *World) gaugeTrigger() string { return "any" }
+// opsCount is the number of key operations of a batch, recursively.
+func opsCount(b *BatchSpec) int {
+	n := len(b.Ops)
+	for _, c := range b.Kids {
+		n += opsCount(c)
+	}
+	return n
+}
+
+// gaugeTrigger narrows C20 signatures: "only-child-create-delete" when every batch that is not yet in the
+// lower level consists solely of child collection creations / deletions (no key operation at all).
+func (w *World) gaugeTrigger() string {
+	p := -1
+	if w.cfg.Backing == "store" {
+		p, _ = w.storePrefix()
+	} else {
+		for i := len(w.models) - 1; i >= 0; i-- {
+			if mapsEqual(w.ll, w.models[i].KV) {
+				p = i
+				break
+			}
+		}
+	}
+	if p < 0 || p > len(w.specs) {
+		return "any"
+	}
+	if p == len(w.specs) {
+		return "any"
+	}
+	for _, b := range w.specs[p:] {
+		if opsCount(b) > 0 {
+			return "any"
+		}
+	}
+	return "only-child-create-delete"
+}
 
 // reopenCopyOracle opens a copy of the store directory taken right now and compares it with exp.
 func (w *World) reopenCopyOracle(prop string, exp *DumpT, why string) *Violation {
@@ -417,8 +452,8 @@ func init() {
 				{Backing: "store", MinMergePct: 0.01, Concern: 2},
 				{Backing: "store", MinMergePct: 100, Concern: 1, CachePersisted: true},
 			},
-			Steps: []string{"M", "Pb", "Pe", "S+", "CS+", "I+", "H-", "CC", "CS"}, Devs: []string{"m1", "p1"},
-			MaxB: 3, MaxD: 8, MaxK: 1, MaxH: 2, Deadline: tierDeadline(tier),
+			Steps: []string{"M", "Pb", "Pe", "S+", "CS+", "I+", "SS+", "H-", "CC", "CS", "R"}, Devs: []string{"m1", "p1"},
+			MaxB: 3, MaxD: 8, MaxK: 1, MaxH: 2, MaxR: 1, Deadline: tierDeadline(tier),
 			Note: "oracle: every open snapshot / child snapshot / iterator is re-read after every later step and must show what it showed when taken"}
 		if tier == "thorough" {
 			sp.MaxB, sp.MaxD, sp.MaxK, sp.MaxH = 4, 11, 2, 3
